@@ -493,6 +493,12 @@ class Evaluator:
                         s2, val = self.list_from_seq(s2, val)       # slicing a list makes a new list
                     out.append((s2, val))
                 continue
+            if isinstance(v.ty, TObj) and not repo.in_repo(v.ty.cls):
+                for s2, idx in self.ev(e.slice, s):
+                    kind = '__getitem__str' if isinstance(idx.ty, TStr) else '__getitem__int'
+                    fv = SV(TFunc(), (), py=Static(('extmethod', v.ty.cls, kind), recv=v))
+                    out += self.call_value(fv, [idx], {}, s2)
+                continue
             for s2, idx in self.ev(e.slice, s):
                 val, fail = ops.op_index(s2.heap, v, idx)
                 s3 = self.need(s2, fail)
